@@ -101,6 +101,10 @@ func runC07(c *eng.Ctx) {
 	})
 
 	// ---- 1b. a family log is garbage-collected only when every consumer ACKNOWLEDGED (= flushed) everything appended -----------------
+	// ---- 1c. the durable sequences live in the manifest records of a kv family, which the replay routes by family id: two families
+	// of one store never share an id, also after a restart (rule shared with C01) --------------------------------------------------
+	c.Rule("PROV", "kv.store.CreateFamily{id of a new family = next value of the store's sequence}", func() { familyIDFromSequence(c) })
+
 	c.Rule("PROV", "pkg/queue.consumerGroup.IsEmpty{appended <= acknowledged}", func() { groupEmptyMeansAcknowledged(c) })
 
 	// ---- 2. the data flusher's Close is the kv commit ------------------------------------------------------
@@ -220,6 +224,31 @@ func runC07(c *eng.Ctx) {
 			}
 		}
 		c.Check(okCap, "flushes-the-capture", fl.Instr, f, "the sequences handed to the flush are the captured ones", "sequences argument is "+p.Desc(capMap))
+		// the capture is recorded next to the frozen database, in the freezing hold: Close() retries a frozen database that a failed
+		// flush left behind with the sequences recorded here - without them the retry commits the table with no sequence record
+		// and acknowledges nothing, and the entries it holds are replayed on top of it after a restart
+		recorded := false
+		for _, s := range p.Sites(f, eng.StoreField(dfT+".immutableSeq")) {
+			v := s.Instr.(*ssa.Store).Val
+			if eng.IsNilConst(v) {
+				continue
+			}
+			if eng.ThroughHelperValue(v) != capMap && v != args[0] {
+				continue
+			}
+			if okh, _ := ls.SameHold(freeze, s.Instr, dfMu, true); okh {
+				recorded = true
+			}
+		}
+		c.Check(recorded, "capture-recorded-with-the-frozen-db", freeze, f, "the captured sequences are stored in f.immutableSeq in the hold that freezes the database (the pair Close() retries with)", "no store of the capture to immutableSeq in the freezing hold")
+		cf := c.Fn(dfT + ".Close")
+		for i, s := range p.Sites(cf, eng.CallTo(dfT+".flushMemoryDatabase")) {
+			a := eng.CallArgs(s.Instr.(*ssa.Call))
+			if !eng.DependsOnField(a[1], dfT+".immutableMemDB") {
+				continue // the flush of the mutable database
+			}
+			c.Check(eng.DependsOnField(a[0], dfT+".immutableSeq"), fmt.Sprintf("retry-uses-the-recorded-pair[%d]", i), s.Instr, cf, "Close() retries the frozen database with the sequences recorded at its freeze", "sequences argument is "+p.Desc(a[0]))
+		}
 		sameDB := args[1] == frozen || eng.SameValue(args[1], frozen) || eng.SameValue(eng.ThroughHelperValue(args[1]), frozen)
 		if !sameDB {
 			// read back from f.immutableMemDB inside the freezing hold, with no store to it in between
